@@ -477,6 +477,16 @@ impl RefM for RefTsi {
 	}
 }
 
+/// inputs on which every running sum of up to 254 changes is exact in the ValueType (f64: multiples of 2^-16 up to
+/// 2^24; f32: multiples of 1/4 up to 2^11)
+fn is_dyadic(x: f64) -> bool {
+	if std::mem::size_of::<V>() == 4 {
+		x.abs() <= 2048.0 && (x * 4.0).fract() == 0.0
+	} else {
+		x.abs() <= 16_777_216.0 && (x * 65536.0).fract() == 0.0
+	}
+}
+
 pub struct RefVidya {
 	h: Hist,
 	n: usize,
@@ -491,7 +501,7 @@ impl RefM for RefVidya {
 	fn next_f(&mut self, xin: f64, impl_out: f64) -> Ap {
 		let xv = xin;
 		self.h.push(xv);
-		self.dyadic &= xv.abs() <= 16_777_216.0 && (xv * 65536.0).fract() == 0.0;
+		self.dyadic &= is_dyadic(xv);
 		let n = self.n;
 		let t = self.h.t();
 		// changes d_i = x_i - x_{i-1}, d_0 = x_0 - init, earlier 0; last n changes
@@ -666,7 +676,7 @@ pub fn make_ref(name: &str, par: &Par, init: &In) -> Option<Box<dyn RefM>> {
 			Par::LL(s, l) => Some(Box::new(RefTsi { last: i0, a_short: 2.0 / (*s as f64 + 1.0), a_long: 2.0 / (*l as f64 + 1.0), m: [0.0; 2], me: [0.0; 2], a: [0.0; 2], ae: [0.0; 2] })),
 			_ => None,
 		},
-		"Vidya" => Some(Box::new(RefVidya { h: Hist::with_keep(i0, n + 3), n, y: Ap::exact(i0), dyadic: i0.abs() <= 16_777_216.0 && (i0 * 65536.0).fract() == 0.0 })),
+		"Vidya" => Some(Box::new(RefVidya { h: Hist::with_keep(i0, n + 3), n, y: Ap::exact(i0), dyadic: is_dyadic(i0) })),
 		"TR" | "ADI" => match init {
 			In::C(c) => {
 				let term = clv_ap(c) * Ap::exact(c.volume as f64);
